@@ -851,6 +851,14 @@ func (e *Env) callExpr(n *ast.CallExpr) Val {
 		k = e.keyOf(mi, k)
 		dom := e.arr(mi.domSite, SArr(mi.kSort, SBool))
 		return boolVal(and(not(eq(m.S[0], "0")), sel(sel(dom, m.S[0]), k.S[0])))
+	case "oncedone":
+		// oncedone(o): the sync.Once value o (a field or variable, not a copy) has already run its function
+		argc(1)
+		v := e.eval(n.Args[0])
+		if v.Addr == "" {
+			specErrf("oncedone: argument must be an addressable sync.Once")
+		}
+		return boolVal(sel(e.arr("sync.Once.$done", SBool), v.Addr))
 	case "instant":
 		// instant(t): the monotonic instant (nanoseconds, int64) of a time.Time value
 		argc(1)
